@@ -6,6 +6,7 @@
 #include "seams_stream.hpp"
 
 #include <ctpg/ctpg.hpp>
+#include <initializer_list>
 #include <iterator>
 #include <streambuf>
 #include <ostream>
@@ -197,10 +198,11 @@ struct TokFtorT
         return TokT{ sv.data(), sv.size() };
     }
 };
-struct Node; struct MNode; struct XNode; struct PNode;
+struct Node; struct MNode; struct XNode; struct PNode; struct INode;
 template<typename V> struct TokOf { using type = Tok; };
 template<> struct TokOf<Node> { using type = LTok; };
 template<> struct TokOf<XNode> { using type = LTok; };
+template<> struct TokOf<INode> { using type = LTok; };
 template<> struct TokOf<MNode> { using type = MTok; };
 template<typename V> using TokFtorFor = TokFtorT<typename TokOf<V>::type>;
 
@@ -282,6 +284,41 @@ struct XNode
         rule = o.rule; digest = o.digest; sdigest = o.sdigest; mf = o.mf; depth = o.depth; text = o.text; kids = o.kids;
         vid = simrt::node_copy(this, o.vid);
         return *this;
+    }
+};
+
+// copyable, and constructible from a braced list of itself, like JSON-/S-expression-style value classes
+// (`value{a, b}` makes an array of copies): a library that writes T{expr} where it means T(expr) silently selects this
+// constructor, wraps the value one level deeper and copies it (S79)
+struct INode
+{
+    SIM_NODE_COMMON(INode, true, true)
+    INode(const INode& o) : rule(o.rule), digest(o.digest), sdigest(o.sdigest), mf(o.mf), depth(o.depth), text(o.text), kids(o.kids)
+    {
+        vid = simrt::node_copy(this, o.vid);
+    }
+    INode& operator=(const INode& o)
+    {
+        if (this == &o) return *this;
+        simrt::node_assign_over(this, vid, !mf);
+        rule = o.rule; digest = o.digest; sdigest = o.sdigest; mf = o.mf; depth = o.depth; text = o.text; kids = o.kids;
+        vid = simrt::node_copy(this, o.vid);
+        return *this;
+    }
+    INode(std::initializer_list<INode> l) : INode()
+    {
+        rule = -2;
+        uint64_t hl = list_digest_begin(), hls = hl;
+        text = "{";
+        for (const INode& e : l)
+        {
+            hl = list_digest_add(hl, e.digest); hls = list_digest_add(hls, e.sdigest);
+            if (text.size() + e.text.size() < 4096) { text += " "; text += e.text; }
+            if (e.depth + 1 > depth) depth = e.depth + 1;
+            kids.push_back(e);
+        }
+        text += " }";
+        digest = hl; sdigest = hls;
     }
 };
 
